@@ -370,7 +370,14 @@ func (t *termer) term(v ssa.Value, d int) string {
 		if s, ok := t.canonSlice(x, d); ok {
 			return s
 		}
-		return "slice(" + t.term(x.X, d+1) + ", " + t.term(x.Low, d+1) + ", " + t.term(x.High, d+1) + ")"
+		base, lo, hi := t.term(x.X, d+1), t.term(x.Low, d+1), t.term(x.High, d+1)
+		if lo == "0" {
+			lo = "_" // x[0:h] ≡ x[:h]
+		}
+		if hi == "len("+base+")" {
+			hi = "_" // x[l:len(x)] ≡ x[l:]
+		}
+		return "slice(" + base + ", " + lo + ", " + hi + ")"
 	case *ssa.BinOp:
 		return "(" + t.term(x.X, d+1) + " " + x.Op.String() + " " + t.term(x.Y, d+1) + ")"
 	case *ssa.Call:
